@@ -480,7 +480,7 @@ def expansionLoop (f : Fmt) (prec : Nat) (length : Option Nat) : Nat â†’ MpfT â†
 /-- `utils.mpf2expansion(dtype, x, length=length, functional=functional)` for a rounding step `R` -/
 def mpf2expansionG (R : MpfT â†’ Nat) (f : Fmt) (prec : Nat) (x : MpfT) (length : Option Nat) (functional : Bool) (fuel : Nat) :
     Except Err (List Nat) :=
-  let r := if x.isInf then .ok [R x] else expansionLoopG R f prec length fuel x []
+  let r := if x.isInf || x.isNaN then .ok [R x] else expansionLoopG R f prec length fuel x []
   match r, length with
   | .ok lst, some n => if functional âˆ§ lst.length < n then .ok (lst ++ List.replicate (n - lst.length) 0) else .ok lst
   | r, _ => r
